@@ -269,9 +269,46 @@ theorem renew_issued (v : Variant) (env : Env) (i : GateIn) (old new : Cert) (pk
     | refuse r => simp [hd] at h
     | allow =>
       simp only [hd] at h
+      by_cases hsh : (v.refuseShortValidity && Decidable.decide ((old.notAfter - old.notBefore) - env.backdate ≤ 0)) = true
+      · rw [if_pos hsh] at h; cases h
+      rw [if_neg hsh] at h
       cases hs : caSign env (renewTemplate v old pk) ((old.notAfter - old.notBefore) - env.backdate) with
       | error e => simp [hs] at h
       | ok c => simp [hs] at h; subst h; exact ⟨rfl, rfl⟩
+
+/-- **renewed_not_born_expired** (variants with the 5596a41 repair, in particular `current`): an
+    issued renewal or rekey is valid at the moment it is issued - its validity ends after "now" -
+    because a presented certificate not longer than the backdate is refused. -/
+theorem renewed_not_born_expired (v : Variant) (hv : v.refuseShortValidity = true) (env : Env) (i : GateIn)
+    (old new : Cert) (pk : Option Str) (h : renew v env i old pk = .val (.issued new)) :
+    env.now < new.notAfter ∧ old.notAfter - old.notBefore > env.backdate := by
+  have hlt : ¬ ((old.notAfter - old.notBefore) - env.backdate ≤ 0) := by
+    intro hle
+    unfold renew at h
+    by_cases hkc : keyRefused v env pk = true
+    · rw [if_pos hkc] at h; cases h
+    rw [if_neg hkc] at h
+    cases hd : decide v i with
+    | crash => simp [hd] at h
+    | val d =>
+      cases d with
+      | refuse r => simp [hd] at h
+      | allow => simp [hd, hv, hle] at h
+  have hs' := (renew_issued v env i old new pk h).2
+  unfold caSign at hs'
+  split at hs'
+  · simp at hs'
+  · simp only [Except.ok.injEq] at hs'
+    subst hs'
+    constructor <;> simp <;> omega
+
+/-- … and a certificate whose validity is not longer than the backdate is refused (after the gate) -/
+theorem short_validity_refused (v : Variant) (hv : v.refuseShortValidity = true) (env : Env) (i : GateIn)
+    (old : Cert) (pk : Option Str) (hk : keyRefused v env pk = false) (hg : decide v i = .val .allow)
+    (hle : old.notAfter - old.notBefore ≤ env.backdate) :
+    renew v env i old pk = .val (.refused .notLongerThanBackdate) := by
+  have : (old.notAfter - old.notBefore) - env.backdate ≤ 0 := by omega
+  simp [renew, hk, hg, hv, this]
 
 /-- the subject key identifier handed to the extension assembly: what the template carries, else
     what `x509util.CreateCertificate` generates, else (empty, CA) crypto/x509's own fallback -/
@@ -1443,8 +1480,15 @@ section Examples
     handshake has done it; see `gates_api`). -/
 example : decide current ⟨.no, .noRecord, .noExt, true, false⟩ = .val .allow := by decide
 
-/-- zero lifetime: a certificate whose validity equals the CA's backdate cannot be renewed -/
-example : renew current envX okGate { certX with notAfter := 60 } none = .val (.signError .zeroLifetime) := by decide
+/-- a certificate whose validity equals, or is shorter than, the CA's backdate cannot be renewed on
+    /repo HEAD … -/
+example : renew current envX okGate { certX with notAfter := 60 } none = .val (.refused .notLongerThanBackdate) := by decide
+example : renew current envX okGate { certX with notAfter := 30 } (some [2, 2]) = .val (.refused .notLongerThanBackdate) := by decide
+/-- … historic (before 5596a41): validity equal to the backdate failed in the CAS ("lifetime cannot be
+    0"), and a shorter one was renewed into a certificate that was already expired when issued -/
+example : renew beforeBackdateFix envX okGate { certX with notAfter := 60 } none = .val (.signError .zeroLifetime) := by decide
+example : ∃ c, renew beforeBackdateFix envX okGate { certX with notAfter := 30 } none = .val (.issued c) ∧
+    c.notAfter < envX.now := ⟨_, rfl, by decide⟩
 
 end Examples
 
